@@ -8,3 +8,5 @@ import Stingray.Driver.C16
 import Stingray.Model.Picture
 import Stingray.Model.Decode
 import Stingray.Driver.Decode
+import Stingray.Model.Layout
+import Stingray.Driver.Layout
